@@ -333,6 +333,16 @@ def run(pid, tier, seed, replay=None):
                         add("lazy-causal-implicit", inst_i, concretise(
                             [x for x in s if x[2] < nbi - 1 and x[3] < nbi - 1], inst_i),
                             input_kind="lazy_implicit", recheck=0)
+                if n_ % 4 == 1:
+                    # a lazily defined series that is ALREADY BLOCKED (shape (nb, nb), plain arrays), with a fully
+                    # diagonalised block: H[(i, i, n)] has two readers (H'_diag and the masked H'_offdiag)
+                    inst_k = draw_instance(rng, nb=2 if n_ % 8 == 1 else 3, k=[1, 2][(n_ // 4) % 2], N=3)
+                    if inst_k["fdkind"] != "dict":
+                        inst_k["fdkind"], inst_k["fd_blocks"], inst_k["masks"] = "tuple", sorted(
+                            {0, *(inst_k["fd_blocks"] if inst_k["fdkind"] == "tuple" else [])}), {}
+                    add("lazy-causal-blocked", inst_k, concretise(
+                        [x for x in s if x[2] < len(inst_k["sizes"]) and x[3] < len(inst_k["sizes"])], inst_k),
+                        input_kind="lazy_blocked", recheck=0)
                 if n_ % 4 == 3:
                     inst_a = draw_instance(rng, nb=len(inst["sizes"]), k=inst["k"], N=3, custom=True)
                     add("lazy-causal-algebra", inst_a, concretise(
